@@ -352,6 +352,12 @@ class Tle:
             # lines containing only a COSPAR ID, which happens when an object is detected but the
             # JSpOc doesn't know what is the source yet.
             if line.startswith("1 "):
+                if cache and cache[-1].startswith("1 "):
+                    # The previous first line never got its second line. It can't
+                    # be the name of this TLE, so the incomplete entry is dropped
+                    if error == "warn":
+                        log.warning(f"Incomplete TLE, second line missing : {cache[-1]}")
+                    cache = []
                 cache.append(line)
             elif line.startswith("2 "):
                 cache.append(line)
